@@ -2,4 +2,7 @@ pub mod clock;
 pub mod exec;
 pub mod kv;
 pub mod net;
+pub mod node;
 pub mod rng;
+pub mod tapmon;
+pub mod wire;
